@@ -494,9 +494,32 @@ ProdNear(dv, x, r) ==
       rs   == B!Mk(r.neg, B!MulMag(r.m, B!Pow2Mag(s)))
       tol  == B!AddMag(B!Pow2Mag(s), B!DivModMag(prod.m, B!Pow2Mag(50))[1])
   IN  B!CmpMag(B!Sub(rs, prod).m, tol) <= 0
+(* Sharper, where it is well defined.  The factor has a decimal precision p <= 22 when the double x * 10^p   *)
+(* is a whole number q (10^p is exact up to 10^22): the implementation's documented method is the exact      *)
+(* decimal product d * q / 10^p truncated (MulDec); the statement's rule for a duration that is itself a     *)
+(* double (|d| < 2^53 ns) is the float product rounded to nearest then truncated (MulRN).  Either is         *)
+(* admitted; another value within the tolerance is admitted only where neither is defined (no such p, the    *)
+(* scaled product beyond an i128, or |d| >= 2^53 where the float product depends on how d is rounded).       *)
+ScaledF64(x, p) == IF x.e >= 0 THEN Dy!RN53(B!MulMag(B!MulMag(x.m, B!Pow10Mag(p)), B!Pow2Mag(x.e)), <<1>>)
+                   ELSE Dy!RN53(B!MulMag(x.m, B!Pow10Mag(p)), B!Pow2Mag(-x.e))
+IsWhole(r) == r[2] >= 0 \/ B!DivModMag(r[1], B!Pow2Mag(-r[2]))[2] = <<>>
+RECURSIVE DecPFrom(_, _)
+DecPFrom(x, p) == IF p > 22 THEN -1 ELSE IF IsWhole(ScaledF64(x, p)) THEN p ELSE DecPFrom(x, p + 1)
+DecP(x) == IF x.m = <<>> THEN 0 ELSE DecPFrom(x, 0)
+MulDecQ(x, p) == IF x.m = <<>> THEN <<>> ELSE LET r == ScaledF64(x, p) IN Dy!TruncMag(r[1], r[2])
+MulDec(dv, x, p) == M!Clamp(B!Mk(dv.neg # x.neg, B!DivModMag(B!MulMag(dv.m, MulDecQ(x, p)), B!Pow10Mag(p))[1]))
+MulRN(dv, x) == M!Clamp(B!Mk(dv.neg # x.neg, Dy!MulTrunc([x EXCEPT !.neg = FALSE], dv.m).m))
+MulF64OK(dv, x, r) ==
+  LET p == DecP(x)
+      tolerant == M!InRange(B!Mk(dv.neg # x.neg, Dy!TruncMag(B!MulMag(dv.m, x.m), x.e))) => ProdNear(dv, x, r) IN
+    IF p >= 0 /\ B!CmpMag(B!MulMag(dv.m, MulDecQ(x, p)), B!Pow2Mag(127)) < 0
+    THEN \/ r = MulDec(dv, x, p)
+         \/ (B!CmpMag(dv.m, Dy!P53) < 0 /\ r = MulRN(dv, x))
+         \/ (B!CmpMag(dv.m, Dy!P53) >= 0 /\ tolerant)
+    ELSE tolerant
 TrMulF64 == IsOp("mul_f64") /\ KeepE /\ KeepS /\ KeepW /\ IsDur(E.res) /\ IsFin(E.x)
                /\ d' = DV(E.res) /\ M!Canonical(<<E.res.c, Mg(E.res.n)>>) /\ out' = <<"dur", d'>>
-               /\ (M!InRange(B!Mk(d.neg # E.x.neg, Dy!TruncMag(B!MulMag(d.m, E.x.m), E.x.e))) => ProdNear(d, E.x, d'))
+               /\ MulF64OK(d, E.x, d')
 (* to_seconds / to_unit: within a few ulp of the exact quotient (of one second's worth near zero), right sign *)
 F64SignOK(x, v) == IF v = B!Zero THEN x.m = <<>> ELSE (x.m # <<>> /\ x.neg = v.neg)
 TrToUnit == IsOp("to_unit") /\ KeepAll /\ IsFin(E.res)
@@ -573,7 +596,10 @@ TrParseNumeric == IsOp("parse_numeric") /\ KeepD /\ KeepS /\ KeepW /\ UNCHANGED 
 Dev_F1F ==
   /\ Open("F1") /\ IsOp("mul_f64") /\ KeepE /\ KeepS /\ KeepW /\ IsDur(E.res) /\ IsFin(E.x) /\ M!F1Class(d)
   /\ d' = DV(E.res) /\ out' = <<"dur", d'>>
-  /\ ~ProdNear(d, E.x, d') /\ ProdNear(M!F1Total(d), E.x, d')
+  /\ ~ProdNear(d, E.x, d')
+  /\ LET f1 == M!F1Total(d)
+         pr == B!Mk(f1.neg # E.x.neg, Dy!TruncMag(B!MulMag(f1.m, E.x.m), E.x.e)) IN
+       IF M!InRange(pr) THEN ProdNear(f1, E.x, d') ELSE d' = M!Clamp(pr)      \* (the wrong count may saturate)
   /\ Known("F1")
 
 (* F27 through the UTC views *)
